@@ -190,34 +190,40 @@ theorem verifyDeal_fresh_not_already (g : G) (a : Agg F G) (d : Deal F G) (ha : 
       (repeat' split) <;> simp
 
 /-- What `ProcessEncryptedDeal` does with an opened deal on a verifier that has not seen one:
-missing share and foreign index are errors; otherwise a signed response for the verifier's own
-index is returned whose session id is the identifier of the commitments the deal carries and whose
-status is approval exactly when the deal is consistent. -/
+missing share, missing share value and foreign index are errors; otherwise a signed response for the
+verifier's own index is returned whose session id is the identifier of the commitments the deal
+carries and whose status is approval exactly when the deal is consistent. -/
 theorem process_fresh (g : G) (v : Verifier F G) (e : EncDeal F G) (rnd : Nat) (d : Deal F G)
     (hv : v.agg = none) (hidx : v.index < v.vs.length) (hd : decryptDeal g v e = .ok d) :
     (d.share = none → processEncryptedDeal g v e rnd = (v, .error .noShare)) ∧
-    (∀ sh, d.share = some sh → sh.i ≠ (v.index : Int) → processEncryptedDeal g v e rnd = (v, .error .index)) ∧
-    (∀ sh, d.share = some sh → sh.i = (v.index : Int) →
+    (∀ sh, d.share = some sh → sh.v = none → processEncryptedDeal g v e rnd = (v, .error .noShare)) ∧
+    (∀ sh, d.share = some sh → sh.v ≠ none → sh.i ≠ (v.index : Int) →
+      processEncryptedDeal g v e rnd = (v, .error .index)) ∧
+    (∀ sh, d.share = some sh → sh.v ≠ none → sh.i = (v.index : Int) →
       ∃ v' r, processEncryptedDeal g v e rnd = (v', .ok r) ∧ r.index = v.index ∧
         r.sid = Sid.h v.dealer v.vs d.commits d.t ∧
         r.sig = .sign v.long r.sid v.index r.status rnd ∧
         (r.status = true ↔ Consistent g v.dealer v.vs d)) := by
-  refine ⟨?_, ?_, ?_⟩
+  refine ⟨?_, ?_, ?_, ?_⟩
   · intro h; simp [processEncryptedDeal, hd, h]
-  · intro sh h hne; simp [processEncryptedDeal, hd, h, hne]
-  · intro sh h heq
+  · intro sh h hn; simp [processEncryptedDeal, hd, h, hn]
+  · intro sh h hn hne
+    have : sh.v.isNone = false := by cases hsv : sh.v <;> simp_all
+    simp [processEncryptedDeal, hd, h, this, hne]
+  · intro sh h hn heq
+    have hsn : sh.v.isNone = false := by cases hsv : sh.v <;> simp_all
     have hfr := verifyDeal_frame g (newAgg (S := F) v.dealer v.vs d.commits d.t d.sid) d true
     have hna := verifyDeal_fresh_not_already g (newAgg (S := F) v.dealer v.vs d.commits d.t d.sid) d rfl
     have hiff := verifyDeal_fresh_ok_iff g (newAgg (S := F) v.dealer v.vs d.commits d.t d.sid) d rfl
     obtain ⟨hvs, _, hresp, _, _⟩ := hfr
-    simp only [processEncryptedDeal, hd, h, heq, ne_eq, not_true_eq_false, if_false, hv]
+    simp only [processEncryptedDeal, hd, h, hsn, Bool.false_eq_true, if_false, heq, ne_eq, not_true_eq_false, hv]
     generalize hvd : verifyDeal g (newAgg (S := F) v.dealer v.vs d.commits d.t d.sid) d true = res at *
     obtain ⟨a1, verr⟩ := res
     simp only at hvs hresp hna hiff
     simp only [hna, if_false]
     have h1 : ¬ (v.index ≥ a1.vs.length) := by rw [hvs]; simp [newAgg]; exact hidx
     have h2 : hasResponse a1 v.index = false := by
-      simp [hasResponse, getResponse, hresp, newAgg, List.getElem?_replicate, hidx]
+      simp [hasResponse, getResponse, hresp, newAgg, hidx]
     simp only [addResponse, h1, if_false, h2, Bool.false_eq_true]
     refine ⟨_, _, rfl, rfl, rfl, rfl, ?_⟩
     have hiff' : verr = none ↔ Consistent g v.dealer v.vs d := hiff
